@@ -25,7 +25,16 @@ def rand_mmatrix(rng, nv):
     sym = rng.random() < 0.6
     dens = rng.choice([0.25, 0.4, 0.6])
     off = [dict() for _ in range(n)]
-    for i in range(n):
+    sparse = rng.random() < 0.3
+    if sparse:
+        # long sparse chains with weak second neighbours and rare weak chords: a rank then does NOT know most columns, and rows
+        # received from other ranks carry coarse columns that are new to it
+        n = rng.choice([16, 20, 24, 28]); off = [dict() for _ in range(n)]
+        for i in range(n):
+            for dj, v, pr in ((1, -4, 1.0), (-1, -4, 1.0), (2, -1, 0.5), (-2, -1, 0.5), (rng.randint(4, n - 1), -1, 0.12)):
+                j = (i + dj) % n if abs(dj) > 2 else i + dj
+                if 0 <= j < n and j != i and rng.random() < pr: off[i][j] = v if rng.random() < 0.85 else -rng.choice([1, 2, 3])
+    for i in range(n if not sparse else 0):
         for j in range(n):
             if i == j: continue
             if sym and j < i: continue
